@@ -68,6 +68,7 @@ type Finding struct {
 	Sched    []int
 	Trace    []string
 	Entry    string
+	Observed []string // vObserve lines predicted under this model
 }
 
 type abortRun struct{}
@@ -110,6 +111,7 @@ type Run struct {
 
 	outcome Outcome
 	finding *Finding
+	witness *Finding
 	errMsg  string
 
 	// stats
@@ -493,4 +495,48 @@ func sortedKeys(m map[string]bool) []string {
 	}
 	sort.Strings(ks)
 	return ks
+}
+
+// evalObserved predicts the vObserve output of this path under the witness model.
+func (r *Run) evalObserved(f *Finding) []string {
+	m := &Model{syms: f.Inputs, ufv: map[int]uint64{}}
+	for _, u := range r.ufApps {
+		// find the row for this application
+		row := make([]uint64, 0, len(u.args))
+		ok := true
+		for _, a := range u.args {
+			v, o := m.Eval(a)
+			if !o {
+				ok = false
+				break
+			}
+			row = append(row, v)
+		}
+		if !ok {
+			continue
+		}
+	rows:
+		for _, tr := range f.UFTables[u.name] {
+			for i := range row {
+				if tr[i] != row[i] {
+					continue rows
+				}
+			}
+			m.ufv[u.id] = tr[len(row)]
+			break
+		}
+	}
+	var out []string
+	for _, o := range r.observes {
+		t, ok := o.val.(*Term)
+		if !ok {
+			continue
+		}
+		v, ok := m.Eval(t)
+		if !ok {
+			continue
+		}
+		out = append(out, fmt.Sprintf("OBS %s %d", o.label, sext(v, t.sort.W)))
+	}
+	return out
 }
